@@ -239,6 +239,21 @@ func c02Helpers(c CaseC02) *hx.Failure {
 	if p[3]&0x20 == 0 {
 		return hx.Failf("create-Create+AF", "WithHasAdaptationFieldFlag did not set the flag")
 	}
+	// adaptation-field flag options (they write the flags byte behind the adaptation_field_length byte)
+	p = packet.Create(pid, packet.WithHasAdaptationFieldFlag, packet.WithAFPrivateDataFlag)
+	if f := hdr("Create+AF+private", p, false, true); f != nil {
+		return f
+	}
+	if p[3]&0x20 == 0 || p[5]&0x02 == 0 {
+		return hx.Failf("create-Create+AF+private", "WithAFPrivateDataFlag did not set transport_private_data_flag: header %x flags %02x", p[:4], p[5])
+	}
+	p = packet.Create(pid, packet.WithHasAdaptationFieldFlag, packet.WithDiscontinuousAF)
+	if f := hdr("Create+AF+discontinuity", p, false, true); f != nil {
+		return f
+	}
+	if p[3]&0x20 == 0 || p[5]&0x80 == 0 {
+		return hx.Failf("create-Create+AF+discontinuity", "WithDiscontinuousAF did not set discontinuity_indicator: header %x flags %02x", p[:4], p[5])
+	}
 	// a caller-owned option slice used twice, first a window of it: the options requested by the second call must all be honoured
 	opts := []func(*packet.Packet){packet.WithHasPayloadFlag, packet.WithPUSI, packet.WithHasAdaptationFieldFlag}
 	if c.OptWin >= 0 && c.OptWin < len(opts) {
